@@ -99,7 +99,11 @@ def random_history(rng, d, n, programs, with_sym=True, with_fail=True, fams=None
         if rng.random() < 0.5:
             calls.append({'t': 'T1', 'kind': 'prog', 'op': name, 'args': [tuple(reversed(p)) for p in pats], 'params': [], 'mode': 'num'})
     if with_fail:
-        calls.append({'t': 'T1', 'kind': 'op', 'op': 'div', 'args': [rng.choice(pool), (1,)], 'params': [], 'mode': 'num'})
+        # a division that succeeds, one whose generation raises (null divisor e0 when the first generator is null), with operands of
+        # the same sizes; both are repeated later (a failing call must leave nothing behind)
+        p1 = rng.choice(pool)
+        calls.append({'t': 'T1', 'kind': 'op', 'op': 'div', 'args': [p1, (2,)], 'params': [], 'mode': 'num'})
+        calls.append({'t': 'T1', 'kind': 'op', 'op': 'div', 'args': [tuple(reversed(p1)) if rng.random() < 0.5 else p1, (1,)], 'params': [], 'mode': 'num'})
     calls.append({'t': 'T1', 'kind': 'op', 'op': 'grade', 'args': [rng.choice(pool)], 'params': [rng.randint(0, d)], 'mode': 'num'})
     rng.shuffle(calls)
     calls = calls[:max(4, n // 2)]
@@ -176,6 +180,25 @@ def tlaparse_error(msg):
     return MachineryError(msg)
 
 
+def suite_traces(ctx):
+    import subprocess
+    import glob as _glob
+    src = os.environ.get('KINGDON_SRC', '/repo')
+    out = os.path.join(ctx.work, 'suite')
+    os.makedirs(out, exist_ok=True)
+    env = dict(os.environ, PYTHONPATH=os.path.join(os.path.dirname(os.path.dirname(os.path.abspath(__file__))), 'harness') + os.pathsep + src,
+               VERIF_TRACE_DIR=out, KINGDON_SRC=src)
+    p = subprocess.run(['/venv/bin/python', '-m', 'pytest', '-q', '-p', 'pytest_trace', '-p', 'no:cacheprovider', '--timeout=900', '-n', '6'],
+                       cwd=src, env=env, capture_output=True, text=True, timeout=1800)
+    files = sorted(_glob.glob(out + '/suite_*.ndjson'))
+    rej = ctx.validate('TraceOps.tla', 'TraceOps.cfg', files)
+    ctx.extra['repository_test_suite_operator_calls_validated'] = sum(max(0, sum(1 for _ in open(f)) - 1) for f in files)
+    for f, (eid, clause) in rej:
+        header, ev = lookup_event(f, eid)
+        ctx.report(f"operator call made by the repository test {ev.get('test', '?')}: {ev['op']} on keys {[a['keys'] for a in ev['args']]}: {clause}",
+                   {'kind': 'suite', 'op': ev['op'], 'clause': clause}, {'trace_header': header, 'event': ev, 'spec': 'TraceOps.tla'})
+
+
 def run(ctx):
     rng, q = ctx.rng, ctx.quick
     mc_stage(ctx)
@@ -228,6 +251,10 @@ def run(ctx):
                 mism += 1
     ctx.extra['replayed_model_behaviours'] = len(behs)
     ctx.extra['outcome_mismatches_with_model'] = mism
+    # (2b) thorough: the repository's own test-suite under the recording plugin -- every operator call those tests make is
+    # validated against the reference, not only what the tests assert
+    if not q:
+        suite_traces(ctx)
     # (3) thread schedules
     import c09_threads
     c09_threads.run_threads(ctx, sessions)
